@@ -28,7 +28,7 @@ func runC20(c *Ctx) {
 	regMethod := p.MustFunc("(*Transcoder).registerMethod")
 	for _, call := range Calls(regMethod) {
 		cv, ok := call.(*ssa.Call)
-		if !ok || !cv.Call.IsInvoke() || cv.Call.Method.Name() != "FindMessageByName" {
+		if !ok || !cv.Call.IsInvoke() || N(cv.Call.Method) != "FindMessageByName" {
 			continue
 		}
 		c.CountSite()
@@ -41,10 +41,10 @@ func runC20(c *Ctx) {
 		// which descriptor accessor feeds the name: Input() or Output()
 		accessor := ""
 		for _, l := range Origins(cv.Call.Args[0]) {
-			if l.Kind == "call" && l.Call.Common().IsInvoke() && l.Call.Common().Method.Name() == "FullName" {
+			if l.Kind == "call" && l.Call.Common().IsInvoke() && N(l.Call.Common().Method) == "FullName" {
 				for _, l2 := range Origins(l.Call.Common().Value) {
 					if l2.Kind == "call" && l2.Call.Common().IsInvoke() {
-						accessor = l2.Call.Common().Method.Name()
+						accessor = N(l2.Call.Common().Method)
 					}
 				}
 			}
@@ -54,7 +54,7 @@ func runC20(c *Ctx) {
 			for _, ref := range *errVal.Referrers() {
 				if ic, ok := ref.(*ssa.Call); ok && IsCallTo(ic, "errors.Is") {
 					if g, ok := ic.Call.Args[1].(*ssa.UnOp); ok {
-						if gl, ok := g.X.(*ssa.Global); ok && gl.Name() == "NotFound" {
+						if gl, ok := g.X.(*ssa.Global); ok && N(gl) == "NotFound" {
 							isCall = ic
 						}
 					}
@@ -81,7 +81,7 @@ func runC20(c *Ctx) {
 				return false
 			}
 			for _, l := range Origins(dc.Call.Args[0]) {
-				if l.Kind == "call" && l.Call.Common().IsInvoke() && l.Call.Common().Method.Name() == accessor {
+				if l.Kind == "call" && l.Call.Common().IsInvoke() && N(l.Call.Common().Method) == accessor {
 					return true
 				}
 			}
@@ -107,7 +107,7 @@ func runC20(c *Ctx) {
 					if l.Kind == "call" && IsCallTo(l.Call, "google.golang.org/protobuf/types/dynamicpb.NewMessageType") {
 						dyn = true
 					}
-					if l.Kind == "call" && l.Call.Common().IsInvoke() && l.Call.Common().Method.Name() == "FindMessageByName" {
+					if l.Kind == "call" && l.Call.Common().IsInvoke() && N(l.Call.Common().Method) == "FindMessageByName" {
 						found = true
 					}
 				}
@@ -133,14 +133,14 @@ func runC20(c *Ctx) {
 				}
 				cc := x.Common()
 				if cc.IsInvoke() && isNamed(cc.Value.Type(), "google.golang.org/protobuf/reflect/protoreflect", "Message") {
-					switch cc.Method.Name() {
+					switch N(cc.Method) {
 					case "Get", "Set", "Has", "Clear", "Mutable", "NewField":
 						c.CountSite()
 						for _, l := range Origins(cc.Args[0]) {
 							if l.Kind == "global" {
 								nBad++
-								c.Bad("C20.2", FuncName(fn), "foreign-descriptor:"+cc.Method.Name(), x.Pos(),
-									"a field descriptor taken from a package-level variable ("+l.V.Name()+") is used on a schema-derived message: for a dynamically loaded schema the descriptor does not belong to the message (panic / wrong field)")
+								c.Bad("C20.2", FuncName(fn), "foreign-descriptor:"+N(cc.Method), x.Pos(),
+									"a field descriptor taken from a package-level variable ("+N(l.V)+") is used on a schema-derived message: for a dynamically loaded schema the descriptor does not belong to the message (panic / wrong field)")
 							}
 						}
 					}
@@ -151,10 +151,10 @@ func runC20(c *Ctx) {
 				}
 				for _, l := range Origins(x.X) {
 					if l.Kind == "call" && l.Call.Common().IsInvoke() {
-						switch l.Call.Common().Method.Name() {
+						switch N(l.Call.Common().Method) {
 						case "Options", "Interface", "Message", "ProtoReflect":
 							nBad++
-							c.Bad("C20.2", FuncName(fn), "single-value-assert", x.Pos(), "single-value type assertion on a schema-derived value ("+l.Call.Common().Method.Name()+"()): panics when the schema was loaded dynamically")
+							c.Bad("C20.2", FuncName(fn), "single-value-assert", x.Pos(), "single-value type assertion on a schema-derived value ("+N(l.Call.Common().Method)+"()): panics when the schema was loaded dynamically")
 						}
 					}
 				}
@@ -218,7 +218,7 @@ func runC20(c *Ctx) {
 		var newSvc *ssa.Call
 		for _, call := range Calls(wrap) {
 			cv, ok := call.(*ssa.Call)
-			if !ok || cv.Call.StaticCallee() == nil || cv.Call.StaticCallee().Name() != "NewService" {
+			if !ok || cv.Call.StaticCallee() == nil || N(cv.Call.StaticCallee()) != "NewService" {
 				continue
 			}
 			if rk, ok := rangeKeyOf(cv.Call.Args[0]); ok && rk == rng {
@@ -255,12 +255,12 @@ func runC20(c *Ctx) {
 		okProto := false
 		for _, call := range Calls(wrap) {
 			cv, ok := call.(*ssa.Call)
-			if !ok || cv.Call.StaticCallee() == nil || cv.Call.StaticCallee().Name() != "WithTargetProtocols" {
+			if !ok || cv.Call.StaticCallee() == nil || N(cv.Call.StaticCallee()) != "WithTargetProtocols" {
 				continue
 			}
 			for _, el := range sliceLiteralElems(cv.Call.Args[0]) {
 				if k, isK := ConstInt(el); isK {
-					if obj, ok := p.Root.Pkg.Scope().Lookup("ProtocolGRPC").(*types.Const); ok && obj.Val().ExactString() == itoa(int(k)) {
+					if obj, ok := p.Lookup("ProtocolGRPC").(*types.Const); ok && obj.Val().ExactString() == itoa(int(k)) {
 						okProto = true
 					}
 				}
@@ -416,12 +416,12 @@ func isDescriptorIface(t types.Type) bool {
 	if _, isIface := n.Underlying().(*types.Interface); !isIface {
 		return false
 	}
-	return n.Obj().Pkg() != nil && n.Obj().Pkg().Path() == "google.golang.org/protobuf/reflect/protoreflect" && strings.HasSuffix(n.Obj().Name(), "Descriptor")
+	return n.Obj().Pkg() != nil && n.Obj().Pkg().Path() == "google.golang.org/protobuf/reflect/protoreflect" && strings.HasSuffix(N(n.Obj()), "Descriptor")
 }
 
 func isParentFile(v ssa.Value) bool {
 	for _, l := range Origins(v) {
-		if l.Kind == "call" && l.Call.Common().IsInvoke() && l.Call.Common().Method.Name() == "ParentFile" {
+		if l.Kind == "call" && l.Call.Common().IsInvoke() && N(l.Call.Common().Method) == "ParentFile" {
 			return true
 		}
 	}
